@@ -18,7 +18,13 @@ tie:    interval enclosures of the generated helper terms against the implementa
 search: manufactured-solution problems (runtime numerics, labelled partial): orders 1..3, constant / variable / mixed
         coefficients, IVP with RK45 / RK23 / DOP853 / LSODA / Radau / BDF forwards and backwards, BVP with value and derivative
         conditions, no transform and all 12 transform classes with k, m in {1,2,3}; solution, derivatives w.r.t. the original
-        variable, prescribed data, transformed-vs-direct agreement.  Directed corpus re-derives the listed findings.
+        variable, prescribed data, transformed-vs-direct agreement.  A fixed set of problems (directed_specs: first-order IVPs
+        through Becke / Inverse(Becke) / Inverse(LinearFinite) / Knowles / Inverse(Knowles) / MultiExp / Handy / LinearFinite / Exp
+        forwards and backwards, second / third order through the non-linear maps) is solved in every tier under every seed, each
+        solve under a wall-clock limit.  The sweep always runs in full: when the interpreter or the wiring pattern check fails
+        closed, a theorem on the regenerated definitions breaks, or the correspondence disagrees, the first failing problem that
+        is not a listed known finding becomes the replay of that violation (Ctx.broken_tie); only without one it is reported as
+        no-failing-input-found.  Directed corpus checks re-derive the (now fixed) findings should they come back.
 """
 from __future__ import annotations
 
@@ -152,9 +158,16 @@ def sample_transform(rng, cname, npts=2):
     """(transform spec, (lo, hi) interval of x values to pose the problem on); npts: largest array the transform will be applied to
     (HyperbolicRTransform is only defined for b * (npts - 1) < 1)"""
     if cname == "Inverse":
+        inner = rng.choice(["BeckeRTransform", "BeckeRTransform", "KnowlesRTransform", "LinearFiniteRTransform"])
+        if inner == "LinearFiniteRTransform":
+            rmin = dq(rng, -1, 1)
+            rmax = rmin + dq(rng, 2, 6)
+            lo = rmin + dq(rng, 0.25, 0.75)
+            return ("Inverse", (inner, (("rmin", rmin), ("rmax", rmax)))), (lo, min(rmax - 0.25, lo + dq(rng, 0.5, 1.5)))
         rmin, R = rng.choice([0.0, 0.125, 1.5]), dq(rng, 0.5, 3)
         lo = rmin + dq(rng, 0.25, 1.0)
-        return ("Inverse", ("BeckeRTransform", (("rmin", rmin), ("R", R)))), (lo, lo + dq(rng, 0.5, 1.5))
+        pp = (("rmin", rmin), ("R", R)) + ((("k", rng.choice([1, 2, 3])),) if inner == "KnowlesRTransform" else ())
+        return ("Inverse", (inner, pp)), (lo, lo + dq(rng, 0.5, 1.5))
     p, (lo, hi), _ = c03.sample_params(cname, rng)
     if cname == "HyperbolicRTransform" and p["b"] * (npts - 1) >= 0.9:
         p["b"] = dq(rng, 0.3, 0.85, 6) / 2 ** math.ceil(math.log2(npts - 1))
@@ -206,11 +219,19 @@ def spec_desc(s):
 
 
 # ------------------------------------------------------------------------------------------ running one problem
+def tie_fail(ctx, obligation, key, observed, text, replay=None):
+    """a break of the tie between model and implementation (not a failing input of the property by itself): collected, and
+    reported at the end of run() with the first failing problem of the sweep as replay (Ctx.broken_tie), if there is one"""
+    if not hasattr(ctx, "c15_breaks"):
+        ctx.c15_breaks = []
+    ctx.c15_breaks.append((obligation, key, observed, text, replay))
+
+
 class SolveTimeout(Exception):
     pass
 
 
-SOLVE_LIMIT_S = 60  # a healthy solve of these problems takes well under a second
+SOLVE_LIMIT_S = 60  # a healthy solve of these problems takes well under a second; run() sets 20 s in the quick tier
 
 
 def with_timeout(seconds, f, *a, **k):
@@ -445,11 +466,44 @@ def corpus_checks(ctx: Ctx):
     return {"implicit_ok": implicit_ok, "float_span_ok": float_span_ok, "li_matrix_ok": li_matrix_ok}
 
 
+DIRECTED_TF = [
+    (("BeckeRTransform", (("rmin", 0.125), ("R", 1.5))), (-0.5, 0.25)),
+    (("Inverse", ("BeckeRTransform", (("rmin", 0.125), ("R", 1.5)))), (0.5, 1.75)),
+    (("Inverse", ("LinearFiniteRTransform", (("rmin", 0.25), ("rmax", 4.0)))), (0.75, 2.0)),
+    (("KnowlesRTransform", (("rmin", 0.0), ("R", 1.5), ("k", 3))), (-0.5, 0.25)),
+    (("Inverse", ("KnowlesRTransform", (("rmin", 0.125), ("R", 1.5), ("k", 2)))), (0.5, 1.5)),
+    (("MultiExpRTransform", (("rmin", 0.125), ("R", 1.5))), (-0.5, 0.25)),
+    (("HandyRTransform", (("rmin", 0.0), ("R", 1.5), ("m", 2))), (-0.5, 0.25)),
+    (("LinearFiniteRTransform", (("rmin", 0.5), ("rmax", 3.0))), (-0.5, 0.5)),
+    (("ExpRTransform", (("rmin", 0.25), ("rmax", 8.0), ("b", 8.0))), (0.5, 1.5)),
+]
+DIRECTED_SOL = ([0.5, -1.0, 0.25], 0.25, 0.5, 1.5, 0.5)
+DIRECTED_COEFFS = {1: [("f", (0.5, -0.25, 0.5)), ("lead", (1.0, 1.0))],
+                   2: [("c", 0.5), ("f", (0.25, 0.5, -0.25)), ("lead", (-1.0, 0.75))],
+                   3: [("c", 0.5), ("f", (0.25, 0.5, -0.25)), ("c", -0.75), ("leadexp", (1.0, -0.25))]}
+
+
+def directed_specs():
+    """fixed problems solved in every tier and under every seed: first-order IVPs through each kind of map forwards and backwards
+    (no initial derivatives to convert: only the span, the right-hand side and the composition with g are exercised), and second / third
+    order IVPs through the non-linear maps and their InverseRTransform (second and third derivative terms of g)"""
+    out = []
+    for i, (tfs, (a, b)) in enumerate(DIRECTED_TF):
+        for span, method in (((a, b), "DOP853"), ((b, a), "LSODA")):
+            out.append({"problem": "ivp", "order": 1, "coeffs": DIRECTED_COEFFS[1], "sol": DIRECTED_SOL, "tf": tfs, "span": span, "method": method})
+        if tfs[0] != "LinearFiniteRTransform":
+            k = 3 if i % 2 else 2
+            out.append({"problem": "ivp", "order": k, "coeffs": DIRECTED_COEFFS[k], "sol": DIRECTED_SOL, "tf": tfs, "span": (a, b), "method": "RK45"})
+            if tfs[0] == "Inverse":
+                out.append({"problem": "ivp", "order": 3, "coeffs": DIRECTED_COEFFS[3], "sol": DIRECTED_SOL, "tf": tfs, "span": (b, a), "method": "DOP853"})
+    return out
+
+
 def sweep(ctx: Ctx, flags: dict):
     implicit_ok, float_span_ok, li_matrix_ok = flags["implicit_ok"], flags["float_span_ok"], flags["li_matrix_ok"]
     rng = ctx.rng
     results = []
-    plan = []
+    plan = directed_specs()
     n_ivp = 36 if ctx.quick else 1200
     n_bvp = 12 if ctx.quick else 300
     classes = list(TF_CLASSES)
@@ -602,7 +656,7 @@ def helper_cases(ctx: Ctx, sigs):
 
     def add(goal_term, y, obligation, key, text):
         if not math.isfinite(float(y)):
-            ctx.fail(obligation, key, str(float(y)), text + " (the implementation's value is not finite)", found_input=False)
+            tie_fail(ctx, obligation, key, str(float(y)), text + " (the implementation's value is not finite)")
             return
         cases.append((f"Rabs ({goal_term} - {r_lit(float(y))}) <= {tol_of(y)}", TAC))
         meta.append((obligation, key, float(y), text, None))
@@ -624,7 +678,7 @@ def helper_cases(ctx: Ctx, sigs):
                     args = " ".join(r_lit(v) for v in a + d)
                     val = b[j, 1] if ok_shape else float("nan")
                     if not (ok_shape and math.isfinite(val)):
-                        ctx.fail("corr_transform_ode_from_derivs", f"tode:{K}:{a}:{d}:{vname}", str(b.shape), "_transform_ode_from_derivs returned an array of unexpected shape/value")
+                        tie_fail(ctx, "corr_transform_ode_from_derivs", f"tode:{K}:{a}:{d}:{vname}", str(b.shape), "_transform_ode_from_derivs returned an array of unexpected shape/value")
                         continue
                     add(f"tode_b{K}_{j} {args}", val, "corr_transform_ode_from_derivs", f"tode:K={K}:j={j}:a={a}:d={d}:{vname}",
                         f"_transform_ode_from_derivs(coeffs={a} ({vname}), derivs={d})[{j}] = {val} is not the generated tode_b{K}_{j}")
@@ -640,7 +694,7 @@ def helper_cases(ctx: Ctx, sigs):
             # _derivative_transformation_matrix of order N = K (and the empty matrix)
             M = call_quiet(GO._derivative_transformation_matrix, [lambda x, v=v: v for v in d], 0.5, K)
             if M.shape != (K, K):
-                ctx.fail("corr_derivative_transformation_matrix", f"dtm:N={K}", str(M.shape), "unexpected shape")
+                tie_fail(ctx, "corr_derivative_transformation_matrix", f"dtm:N={K}", str(M.shape), "unexpected shape")
             else:
                 for i in range(K):
                     for j in range(K):
@@ -649,7 +703,7 @@ def helper_cases(ctx: Ctx, sigs):
                         ctx.case(("dtm", K, i, j, tuple(d)))
     M0 = call_quiet(GO._derivative_transformation_matrix, [lambda x: 1.0, lambda x: 0.0, lambda x: 0.0], 0.5, 0)
     if M0.shape != (0, 0):
-        ctx.fail("corr_derivative_transformation_matrix", "dtm:N=0", str(M0.shape), "order 0 does not give the empty matrix")
+        tie_fail(ctx, "corr_derivative_transformation_matrix", "dtm:N=0", str(M0.shape), "order 0 does not give the empty matrix")
     # _evaluate_coeffs_on_points
     cf = [dq(rng, -2, 2), dq(rng, -2, 2), dq(rng, -2, 2)]
     xpt = dq(rng, -1, 1, 5)
@@ -701,7 +755,7 @@ def wiring_cases(ctx: Ctx, sigs):
 
     def add(goal_term, y, key, text):
         if not math.isfinite(float(y)):
-            ctx.fail("corr_wiring", key, str(float(y)), text + " (the implementation's value is not finite)", found_input=False)
+            tie_fail(ctx, "corr_wiring", key, str(float(y)), text + " (the implementation's value is not finite)")
             return
         cases.append((f"Rabs ({goal_term} - {r_lit(float(y))}) <= {tol_of(y)}", TAC))
         meta.append(("corr_wiring", key, float(y), text, None))
@@ -709,7 +763,7 @@ def wiring_cases(ctx: Ctx, sigs):
     def direct(cond, key, obs, text):
         ctx.case(("wiring-direct", key))
         if not cond:
-            ctx.fail("corr_wiring", key, obs, text, found_input=False)
+            tie_fail(ctx, "corr_wiring", key, obs, text)
 
     tf_classes = ["BeckeRTransform", "KnowlesRTransform", "MultiExpRTransform", "HandyRTransform"] + ([] if ctx.quick else ["LinearFiniteRTransform", "HandyModRTransform", "Inverse"])
     real_ivp, real_bvp = GO.solve_ivp, GO.solve_bvp
@@ -855,7 +909,7 @@ def run_coq_cases(ctx: Ctx, name, cases, meta):
     bad = ctx.coq_tactic_cases(name, hdr, cases, shard=max(8, len(cases) // 12 + 1), timeout=900)
     for i in bad:
         obligation, key, y, text, _ = meta[i]
-        ctx.fail(obligation, key, y, text, {"goal": cases[i][0][:600]}, found_input=False)
+        tie_fail(ctx, obligation, key, y, text, {"goal": cases[i][0][:600]})
 
 
 # ====================================================================================================== run
@@ -869,62 +923,73 @@ RELEVANT = {  # which sweep failures witness which theorem
 
 
 def run(ctx: Ctx):
+    import re
     import time
     t0 = time.time()
+    globals()["SOLVE_LIMIT_S"] = 20 if ctx.quick else 60
     phases = {}
     status = {}
     sigs = None
+    tie_breaks = []  # (what, error): the translator or the wiring pattern check failed closed
     try:
         sigs, missing = gen(ctx)
     except P.Unsupported as e:
-        ctx.fail("translate_ode", "translate:ode.py", str(e)[:200], f"src/grid/ode.py is outside the translated subset: {e}", found_input=False)
+        tie_breaks.append(("translator(ode.py)", f"src/grid/ode.py is outside the translated subset: {e}"))
         missing = {}
     if sigs is not None:
         for fn, stmts in missing.items():
-            ctx.fail("wiring_pattern", f"wiring:{fn}", stmts, f"{fn}: the hand-modelled wiring statements {stmts} are no longer in the source", found_input=False)
+            tie_breaks.append((f"wiring_pattern({fn})", f"the hand-modelled wiring statements {stmts} are no longer in the source"))
         ctx.copy_coq("C15")
         ctx.copy_coq("C03/C03_proofs_simple.v", "C03/C03_proofs_knowles.v")
         status = ctx.coq_build()
         ctx.register_props(status)
     phases["gen+coq_build"] = round(time.time() - t0, 1)
     t0 = time.time()
+    # the search always runs in full, whatever happened to the translator / the proofs
     flags = corpus_checks(ctx)
     results = sweep(ctx, flags)
     phases["sweep"] = round(time.time() - t0, 1)
     t0 = time.time()
-    # per check kind only the first failing input is reported; failing theorems get the matching witness
+    # failing problems of the sweep: the first one per (check kind, variant, order)
     first = {}
     for kind, obs, exp, variant, spec in results:
         first.setdefault((kind, variant if kind != "transformed_vs_direct" else "both", spec["order"]), (obs, exp, variant, spec))
+
+    def cand(k, rec):
+        obs, exp, variant, spec = rec
+        return (f"{k[0]}:{variant}:{spec_desc(spec)}", round(obs, 9) if isinstance(obs, float) else obs,
+                f"{spec_desc(spec)} [{variant}]: {k[0]}: observed {obs}, expected {exp}", {"spec": spec, "variant": variant, "expected": exp})
+
     used = set()
 
-    def report(obligation, k, rec):
-        obs, exp, variant, spec = rec
-        kind = k[0]
-        ctx.fail(obligation, f"{kind}:{variant}:{spec_desc(spec)}", round(obs, 9) if isinstance(obs, float) else obs,
-                 f"{spec_desc(spec)} [{variant}]: {kind}: observed {obs}, expected {exp}", {"spec": spec, "variant": variant, "expected": exp})
+    def witness(ranked):
+        """first failing problem (in the given order of preference) that is not a listed known finding"""
+        for k in ranked:
+            c = cand(k, first[k])
+            if not ctx.is_known(c[0], c[1]):
+                used.add(k)
+                return [c]
+        return []
 
+    keys = list(first)
+    # a theorem about the regenerated definitions that no longer checks: the most relevant failing problem is its replay
     for name, ob in list(ctx.obligations.items()):
         if ob["status"] == "discharged":
             continue
         fam = ("chain" if name.startswith("chain_rule") else "jet" if name.startswith("jet_matrix") else "explicit" if name.startswith(("explicit", "tre_", "coeff"))
                else "direct" if name.startswith("direct") else "transfers")
-        m = __import__("re").search(r"_(\d)(?:_|$)", name)
+        m = re.search(r"_(\d)(?:_|$)", name)
         want_order = int(m.group(1)) if m else None
-        cands = []
-        for k, rec in first.items():
+
+        def rank(k):
+            rec = first[k]
             through_tf = rec[2] != "direct"  # the transformed solve, or the transformed-vs-direct comparison
-            if (fam == "direct" and not through_tf) or (fam != "direct" and through_tf and RELEVANT[fam](rec[3], k[0])):
-                cands.append((0 if rec[3]["order"] == want_order else 1, len(cands), k, rec))
-        if cands:
-            _, _, k, rec = min(cands)
-            report(name, k, rec)
-            used.add(k)
-    seen_kinds = {k[:2] for k in used}
-    for k, rec in first.items():
-        if k[:2] not in seen_kinds:  # one witness per (check kind, variant)
-            seen_kinds.add(k[:2])
-            report(f"sweep_{k[0]}", k, rec)
+            relevant = (fam == "direct" and not through_tf) or (fam != "direct" and through_tf and RELEVANT[fam](rec[3], k[0]))
+            return (0 if relevant else 1, 0 if rec[3]["order"] == want_order else 1, keys.index(k))
+        ctx.broken_tie(name, f"theorem {name} ({ob['file']}) no longer checks on the definitions regenerated from src/grid/ode.py", witness(sorted(keys, key=rank)))
+    # the translator / the wiring pattern check failed closed
+    for what, err in tie_breaks:
+        ctx.broken_tie(what, err, witness(keys))
     # oracle validation + correspondence
     ocases, ometa = validate_oracles(ctx)
     if sigs is not None and status.get("C15_gen.v") and status.get("C03_gen.v") and status.get("C15_model.v") and status.get("C15_proofs_fdb.v"):
@@ -932,9 +997,29 @@ def run(ctx: Ctx):
         wcases, wmeta = wiring_cases(ctx, sigs)
         run_coq_cases(ctx, "C15_corr", ocases + hcases + wcases, ometa + hmeta + wmeta)
         ctx.cov["correspondence_goals"] = {"oracle": len(ocases), "helpers": len(hcases), "wiring": len(wcases)}
+    # model / implementation disagreements found by the correspondence: one violation per correspondence obligation, with the
+    # first failing problem of the sweep as replay; without one, every disagreement is reported (no failing input found)
+    groups = {}
+    for b in getattr(ctx, "c15_breaks", []):
+        groups.setdefault(b[0], []).append(b)
+    for obligation, bs in groups.items():
+        w = witness(keys)
+        if w:
+            ctx.broken_tie(obligation, f"{len(bs)} correspondence case(s) disagree with the implementation; first: {bs[0][3]}", w)
+        else:
+            for _, key, observed, text, rp in bs[:6]:
+                ctx.fail(obligation, key, observed, text, rp, found_input=False)
+    # the remaining failing problems: one per (check kind, variant)
+    seen_kinds = {k[:2] for k in used}
+    for k in keys:
+        if k[:2] not in seen_kinds:
+            seen_kinds.add(k[:2])
+            c = cand(k, first[k])
+            ctx.fail(f"sweep_{k[0]}", c[0], c[1], c[2], c[3])
     phases["oracles+correspondence"] = round(time.time() - t0, 1)
     ctx.cov["phase_seconds"] = phases
-    ctx.cov["rule"] = ("sweep: manufactured solutions y = (p0+p1 x+p2 x^2) e^(al x) + be sin(om x+ph) with random dyadic parameters, orders 1..3 cyclically, constant "
+    ctx.cov["rule"] = ("sweep: a fixed set of 29 IVPs (orders 1..3 through 9 maps incl. InverseRTransform of Becke / LinearFinite / Knowles, forwards and backwards) plus "
+                       "manufactured solutions y = (p0+p1 x+p2 x^2) e^(al x) + be sin(om x+ph) with random dyadic parameters, orders 1..3 cyclically, constant "
                        "(float/int/ndarray) / variable / mixed coefficients with non-vanishing leading coefficient, f built from the exact derivatives; IVP: methods RK45, RK23, "
                        "DOP853, LSODA (+Radau, BDF where they work), forward and backward spans, no transform and the 12 transform classes cyclically with k, m in {1,2,3}; "
                        "BVP: value and derivative conditions on either end, problems with boundary-matrix condition number <= 50 (computed with SciPy directly); every problem "
